@@ -1,5 +1,5 @@
 (* Lemmas about Model/Errors.v (C12). *)
-From LedgerV Require Import Base.Prelude Gen.StatusOfCount Model.Errors.
+From LedgerV Require Import Base.Prelude Gen.StatusOfCount Gen.CheckingStyle Model.Errors.
 Local Open Scope Z_scope.
 
 (* ---- induction over lines with the included files' lines as sub-terms ------------------- *)
@@ -715,3 +715,142 @@ Qed.
 
 Lemma items_in_shape ls g : In g (items ls) -> item_shape g.
 Proof. intros H. pose proof (items_shapes ls) as F. rewrite Forall_forall in F. apply F. exact H. Qed.
+
+(* ---- checking options ----------------------------------------------------------------------- *)
+Lemma pedantic_style o : o_pedantic o = true -> o_permissive o = false -> checking_style o = SError.
+Proof.
+  intros Hp Hq. unfold checking_style, style_chain. cbn [style_from handled].
+  rewrite Hq, Hp. reflexivity.
+Qed.
+
+Lemma strict_alone_style o :
+  o_strict o = true -> o_pedantic o = false -> o_permissive o = false -> checking_style o = SWarning.
+Proof.
+  intros Hs Hp Hq. unfold checking_style, style_chain. cbn [style_from handled].
+  rewrite Hq, Hp, Hs. reflexivity.
+Qed.
+
+Lemma permissive_style o : o_permissive o = true -> checking_style o = SPermissive.
+Proof.
+  intros Hq. unfold checking_style, style_chain. cbn [style_from handled]. rewrite Hq. reflexivity.
+Qed.
+
+Lemma no_option_style o :
+  o_strict o = false -> o_pedantic o = false -> o_permissive o = false -> checking_style o = SNormal.
+Proof.
+  intros Hs Hp Hq. unfold checking_style, style_chain. cbn [style_from handled].
+  rewrite Hq, Hp, Hs. reflexivity.
+Qed.
+
+Lemma payees_checked_eq o : payees_checked o = o_check_payees o.
+Proof. reflexivity. Qed.
+
+Lemma pedantic_unknown_is_error o nk k :
+  o_pedantic o = true -> o_permissive o = false ->
+  (nk = NPayee -> o_check_payees o = true) ->
+  unknown_name_reaction o nk = RError /\ resolve_ann o (AUnknown nk k) = Some k.
+Proof.
+  intros Hp Hq Hc.
+  assert (E : unknown_name_reaction o nk = RError).
+  { unfold unknown_name_reaction. rewrite (pedantic_style o Hp Hq), payees_checked_eq.
+    destruct nk; try reflexivity. rewrite (Hc eq_refl). reflexivity. }
+  split; [exact E|]. cbn [resolve_ann]. rewrite E. reflexivity.
+Qed.
+
+Lemma strict_alone_unknown_is_warning o nk k :
+  o_strict o = true -> o_pedantic o = false -> o_permissive o = false ->
+  (nk = NPayee -> o_check_payees o = true) ->
+  unknown_name_reaction o nk = RWarning /\ resolve_ann o (AUnknown nk k) = None.
+Proof.
+  intros Hs Hp Hq Hc.
+  assert (E : unknown_name_reaction o nk = RWarning).
+  { unfold unknown_name_reaction. rewrite (strict_alone_style o Hs Hp Hq), payees_checked_eq.
+    destruct nk; try reflexivity. rewrite (Hc eq_refl). reflexivity. }
+  split; [exact E|]. cbn [resolve_ann]. rewrite E. reflexivity.
+Qed.
+
+Lemma quiet_unknown o nk k :
+  (o_permissive o = true \/ (o_strict o = false /\ o_pedantic o = false) \/
+   (nk = NPayee /\ o_check_payees o = false)) ->
+  unknown_name_reaction o nk = RQuiet /\ resolve_ann o (AUnknown nk k) = None.
+Proof.
+  intros H.
+  assert (E : unknown_name_reaction o nk = RQuiet).
+  { unfold unknown_name_reaction. rewrite payees_checked_eq.
+    destruct H as [Hq|[[Hs Hp]|[-> Hc]]].
+    - rewrite (permissive_style o Hq). destruct nk; try reflexivity. destruct (o_check_payees o); reflexivity.
+    - destruct (o_permissive o) eqn:Hq.
+      + rewrite (permissive_style o Hq). destruct nk; try reflexivity. destruct (o_check_payees o); reflexivity.
+      + rewrite (no_option_style o Hs Hp Hq). destruct nk; try reflexivity. destruct (o_check_payees o); reflexivity.
+    - rewrite Hc. reflexivity. }
+  split; [exact E|]. cbn [resolve_ann]. rewrite E. reflexivity.
+Qed.
+
+Lemma permissive_accepts_balance_assertion o k :
+  o_permissive o = true -> resolve_ann o (ABalAssert k) = None.
+Proof. intros Hq. cbn [resolve_ann]. rewrite (permissive_style o Hq). reflexivity. Qed.
+
+Lemma balance_assertion_checked o k :
+  o_permissive o = false -> resolve_ann o (ABalAssert k) = Some k.
+Proof.
+  intros Hq. cbn [resolve_ann]. unfold checking_style, style_chain. cbn [style_from handled].
+  rewrite Hq. destruct (o_pedantic o); [reflexivity|]. destruct (o_strict o); reflexivity.
+Qed.
+
+(* under --pedantic (without --permissive) nothing else that is set changes how a line is read *)
+Section RLineInd.
+  Variable P : rline -> Prop.
+  Hypothesis HE : P RLEmpty.
+  Hypothesis HW : P RLWs.
+  Hypothesis HS : forall a, P (RLSub a).
+  Hypothesis HI : forall a b f, P (RLItem a b f).
+  Hypothesis HInc : forall name body, Forall P body -> P (RLInclude name body).
+
+  Fixpoint rline_ind2 (l : rline) : P l :=
+    match l with
+    | RLEmpty => HE
+    | RLWs => HW
+    | RLSub a => HS a
+    | RLItem a b f => HI a b f
+    | RLInclude name body =>
+        HInc name body
+             ((fix go (ls : list rline) : Forall P ls :=
+                 match ls with
+                 | [] => Forall_nil P
+                 | x :: r => Forall_cons x (rline_ind2 x) (go r)
+                 end) body)
+    end.
+End RLineInd.
+
+Lemma resolve_ext o o' :
+  (forall a, resolve_ann o a = resolve_ann o' a) -> forall l, resolve o l = resolve o' l.
+Proof.
+  intros H.
+  assert (F : forall l, first_throw o l = first_throw o' l)
+    by (induction l as [|a r IH]; [reflexivity|]; cbn [first_throw]; rewrite H, IH; reflexivity).
+  apply rline_ind2; intros; cbn [resolve]; rewrite ?F; try reflexivity.
+  f_equal. induction H0 as [|x r Hx _ IH]; [reflexivity|]. cbn [map]. rewrite Hx, IH. reflexivity.
+Qed.
+
+Lemma pedantic_resolve_ann_same o o' :
+  o_pedantic o = true -> o_permissive o = false ->
+  o_pedantic o' = true -> o_permissive o' = false ->
+  o_check_payees o = o_check_payees o' ->
+  forall a, resolve_ann o a = resolve_ann o' a.
+Proof.
+  intros Hp Hq Hp' Hq' Hc [k|nk k|k]; cbn [resolve_ann]; [reflexivity| |].
+  - unfold unknown_name_reaction. rewrite !payees_checked_eq, Hc.
+    rewrite (pedantic_style o Hp Hq), (pedantic_style o' Hp' Hq'). reflexivity.
+  - rewrite (pedantic_style o Hp Hq), (pedantic_style o' Hp' Hq'). reflexivity.
+Qed.
+
+Lemma pedantic_session_same o o' files :
+  o_pedantic o = true -> o_permissive o = false ->
+  o_pedantic o' = true -> o_permissive o' = false ->
+  o_check_payees o = o_check_payees o' ->
+  run_session o files = run_session o' files.
+Proof.
+  intros Hp Hq Hp' Hq' Hc. unfold run_session, resolve_files. f_equal.
+  apply map_ext. intros [name ls]. cbn [fst snd]. f_equal.
+  apply map_ext. apply resolve_ext. apply pedantic_resolve_ann_same; assumption.
+Qed.
